@@ -21,7 +21,11 @@ func main() {
 	replay := flag.String("replay", "", "replay file")
 	list := flag.Bool("list", false, "list properties and rules")
 	noEvidence := flag.Bool("no-evidence", false, "do not write the evidence file")
+	all := flag.Bool("all", false, "development aid: run every rule once on one load and print, per property, the obligations that are not discharged (no evidence, no replay files)")
 	flag.Parse()
+	if *all {
+		os.Exit(runAll(*repo))
+	}
 
 	if *list {
 		ids := sortedKeys(propTable)
@@ -132,6 +136,59 @@ func doReplay(path, repo string) int {
 	}
 	if code == 1 {
 		fmt.Printf("VIOLATION property=%s replay=%s\n", p.ID, path)
+	}
+	return code
+}
+
+// runAll loads the tree once, runs every registered rule once and attributes the results to the properties
+// that include the rule. Used by the regression scripts over seeded changes and neutral refactorings.
+func runAll(repo string) int {
+	c, err := load(repo, "linux", "amd64")
+	if err != nil {
+		fmt.Printf("CHECKER-ERROR %v\n", err)
+		return 2
+	}
+	known, _ := loadKnown(verifDir() + "/known_findings.txt")
+	rules := sortedKeys(ruleTable)
+	byRule := map[string][]*Obligation{}
+	for _, rn := range rules {
+		r := ruleTable[rn]
+		before := len(c.obs)
+		func() {
+			defer func() {
+				if e := recover(); e != nil {
+					c.undecided(rn, "rule-panic", 0, fmt.Sprint(e))
+				}
+			}()
+			r.Run(c)
+		}()
+		n := len(c.obs) - before
+		if n < r.Floor {
+			c.add(rn, "floor", 0, "violated", fmt.Sprintf("rule matched %d constructs, floor is %d", n, r.Floor))
+		}
+		byRule[rn] = append([]*Obligation{}, c.obs[before:]...)
+	}
+	code := 0
+	for _, pid := range sortedKeys(propTable) {
+		p := propTable[pid]
+		for _, rn := range p.Rules {
+			for _, o := range byRule[rn] {
+				if o.Verdict == "discharged" {
+					continue
+				}
+				isKnown := false
+				for _, k := range known {
+					if k.Property == pid && k.Key == o.FullKey() && o.Verdict == "violated" {
+						isKnown = true
+					}
+				}
+				if isKnown {
+					continue
+				}
+				fmt.Printf("%s %s %s @%s %s\n", pid, strings.ToUpper(o.Verdict), o.FullKey(), o.Pos, o.Why)
+				code = 1
+			}
+		}
 	}
 	return code
 }
